@@ -186,7 +186,9 @@ def _check(case):
 
 def _reject_cases(tier, rng):
     for _ in range(300 if tier == "quick" else 3000):
-        d = dag.gen_dag(rng, rng.randint(1, 4), allow_defaults=False)
+        # (with defaults: an argument may have a default only in a function that the request does not need - it is then
+        #  a required input of the request all the same)
+        d = dag.gen_dag(rng, rng.randint(1, 4), allow_defaults=rng.random() < 0.5)
         outs = dag.all_outputs(d)
         S = [rng.choice(outs)]
         roots, mandatory = required_inputs(d, S, set())
@@ -194,11 +196,16 @@ def _reject_cases(tier, rng):
             continue
         missing = rng.choice(sorted(mandatory))
         yield {"dag": d, "S": S, "missing": missing, "entry": rng.choice(("subpipeline", "map-output_names"))}
+        if not any(f.get("defaults") for f in d["funcs"]):
+            # the missing argument has a default, but only in a function that the request does not need: still missing
+            d2 = {**d, "funcs": d["funcs"] + [{"name": "fx", "params": [missing], "outputs": ["zz_extra"],
+                                               "defaults": {missing: f"D_{missing}"}}]}
+            yield {"dag": d2, "S": S, "missing": missing, "entry": rng.choice(("subpipeline", "map-output_names"))}
 
 
 def _check_reject(case):
     d, S, missing = case["dag"], case["S"], case["missing"]
-    roots, mandatory = required_inputs(d, S, set())
+    roots, _ = required_inputs(d, S, set())
     kw = {n: f"v_{n}" for n in roots if n != missing}
     p = dag.build(d)
     log: list = []
